@@ -77,6 +77,11 @@ class Facts:
         self.impls = []
         self.statics = []
         self.files = []
+        self.build = None     # resolved cargo build graph {'root':..., 'nodes':[{name,version,features,deps}]}
+        bg = os.path.join(facts_dir, 'BUILD.graph')
+        if os.path.exists(bg):
+            with open(bg) as fh:
+                self.build = json.load(fh)
         names = sorted(os.listdir(facts_dir))
         for n in names:
             if not n.endswith('.json') or n == 'META.json':
